@@ -895,6 +895,11 @@ def guard_limits(P, gk):
         """named locals that are stepped up in block x: `v = v + 1` (checked) or `v = v.saturating_add(..)`"""
         out = set()
         for st in b["blocks"][x]["stmts"]:
+            # release build: v = Add(v, c) without the checked tuple
+            if st["k"] == "assign" and not st["place"]["proj"] and st["rv"]["k"] == "bin" and st["rv"]["op"] == "Add" and name(st["place"]["local"]):
+                lp = MU.op_place(st["rv"]["l"])
+                if lp is not None and name(through_copies(lp["local"])) == name(st["place"]["local"]):
+                    out.add(name(st["place"]["local"]))
             if st["k"] == "assign" and not st["place"]["proj"] and st["rv"]["k"] == "use":
                 src = MU.op_place(st["rv"]["op"])
                 if src is not None and name(st["place"]["local"]):
